@@ -31,7 +31,10 @@ const c29SlotMs = 600000
 var c29Vals = []float64{1, 2, 0, math.NaN(), math.Inf(1), math.Inf(-1)}
 
 // c29Series is one series identity: name + optional a, b.
-type c29Series struct{ name, a, b string }
+type c29Series struct {
+	name, a, b string
+	more       [][2]string // further labels (any names)
+}
 
 func (s c29Series) labels() map[string]string {
 	m := map[string]string{c29Name: s.name}
@@ -41,14 +44,36 @@ func (s c29Series) labels() map[string]string {
 	if s.b != "" {
 		m["b"] = s.b
 	}
+	for _, kv := range s.more {
+		m[kv[0]] = kv[1]
+	}
 	return m
+}
+
+// c29OddPool: series whose label names lie on both sides of "__name__" in byte order: upper-case
+// (A, Zone) and a quoted UTF-8 name starting with a digit ("0x") sort before it, _a and a after it.
+// Implementations that keep sorted name lists must treat all of them alike.
+func c29OddPool(name string) []c29Series {
+	kv := func(p ...string) [][2]string {
+		var o [][2]string
+		for i := 0; i < len(p); i += 2 {
+			o = append(o, [2]string{p[i], p[i+1]})
+		}
+		return o
+	}
+	return []c29Series{
+		{name: name}, {name: name, more: kv("A", "1")}, {name: name, more: kv("A", "2")}, {name: name, more: kv("Zone", "1")},
+		{name: name, more: kv("_a", "1")}, {name: name, a: "1"}, {name: name, more: kv("0x", "1")},
+		{name: name, a: "1", more: kv("A", "1")}, {name: name, more: kv("Zone", "1", "_a", "1")}, {name: name, more: kv("0x", "1", "A", "2")},
+		{name: name, more: kv("Zone", "2", "~z", "1")},
+	}
 }
 
 // c29Combos: {a,b} in {absent,"1","2"}, simplest first.
 func c29Combos(name string) []c29Series {
 	var out []c29Series
 	for _, ab := range [][2]string{{"", ""}, {"1", ""}, {"", "1"}, {"1", "1"}, {"2", ""}, {"1", "2"}, {"2", "1"}, {"", "2"}, {"2", "2"}} {
-		out = append(out, c29Series{name, ab[0], ab[1]})
+		out = append(out, c29Series{name, ab[0], ab[1], nil})
 	}
 	return out
 }
@@ -424,7 +449,7 @@ func c29Tiers(thorough bool) []*c29Tier {
 		return func(l, r []int) bool { return len(l) <= k || len(r) <= k }
 	}
 	mPool := c29Combos("m")
-	nExtra := []c29Series{{"n", "", ""}, {"n", "1", ""}, {"n", "1", "1"}}
+	nExtra := []c29Series{{"n", "", "", nil}, {"n", "1", "", nil}, {"n", "1", "1", nil}}
 	aggPool := append(append([]c29Series{}, mPool...), nExtra...)
 	aggExprs := c29AggExprs(thorough)
 	const aggSel = `{__name__=~"m|n"}`
@@ -455,8 +480,8 @@ func c29Tiers(thorough bool) []*c29Tier {
 	// B1: operator x value: single matching pair l{a="1"} / r{a="1"} with all 36 value pairs, and the
 	// scalar forms over all values.
 	{
-		one := c29Series{"l", "1", ""}
-		oner := c29Series{"r", "1", ""}
+		one := c29Series{"l", "1", "", nil}
+		oner := c29Series{"r", "1", "", nil}
 		exprs := c29VVExprs(allForms, []c29Clause{{false, false, nil}, {true, true, []string{"a"}}, {true, false, []string{"b"}}},
 			[]c29Group{{0, nil, false}, {1, nil, false}, {2, nil, false}}, c29Fills(1))
 		exprs = append(exprs, c29ScalarExprs()...)
@@ -503,12 +528,68 @@ func c29Tiers(thorough bool) []*c29Tier {
 		pairTier("match-2x2s-rep", repDesc+" x 8 clauses x 7 group modifiers x 4 fills on every pair of 0..2-series vectors (5 label sets per side) with a 2-series side",
 			lPool, rPool, "l", "r", c29Pairs(s5, s5, func(l, r []int) bool { return len(l) == 2 || len(r) == 2 }), 0, stdRep, 32)
 	}
+	// B6: label names on both sides of "__name__" in byte order (A, Zone, "0x" < __name__ < _a, a, "~z")
+	// in by/without lists, on/ignoring lists and group modifier include lists.
+	{
+		oddAgg := append(c29OddPool("m"), c29Series{name: "n", more: [][2]string{{"A", "1"}}})
+		var oddGroupings []*c29Grouping
+		for _, ls := range [][]string{{"A"}, {"Zone"}, {"_a"}, {"0x"}, {"~z"}, {"A", "a"}, {"Zone", "_a"}, {"a", "A", "0x"}, {c29Name, "A"}, {"Zone", c29Name, "~z"}} {
+			oddGroupings = append(oddGroupings, &c29Grouping{false, ls}, &c29Grouping{true, ls})
+		}
+		var oddAggExprs []*c29Expr
+		for _, f := range [][2]string{{"sum", ""}, {"count", ""}, {"min", ""}, {"group", ""}, {"quantile", "0.5"}, {"topk", "1"}, {"limitk", "1"}, {"count_values", "v"}, {"count_values", "A"}} {
+			for _, g := range oddGroupings {
+				e := &c29Expr{Kind: "agg", Op: f[0], Grp: g}
+				switch {
+				case f[0] == "count_values":
+					if f[1] == "A" && (g.Without || !c29HasLabel(g.Labels, "A")) && !(g.Without && !c29HasLabel(g.Labels, "A")) {
+						// keep only the unambiguous collisions: by(...A...) or without(... not A ...)
+					}
+					if f[1] == "A" {
+						continue // value label colliding with an input label: undocumented
+					}
+					e.HasParam, e.ParamS, e.ParamText = true, f[1], strconv.Quote(f[1])
+				case f[1] != "":
+					e.HasParam, e.ParamText, e.ParamF = true, f[1], c29ParseF(f[1])
+				}
+				oddAggExprs = append(oddAggExprs, e)
+			}
+		}
+		vecTier("agg-odd-names", "every vector of 0..2 samples over 12 series whose label names are A, Zone, \"0x\", _a, a, \"~z\" (both sides of __name__ in byte order; two metric names) x values {1,2} x 8 aggregations x by/without over 10 label lists",
+			`{__name__=~"m|n"}`, oddAgg, c29Sets(len(oddAgg), 0, 2, -1), []float64{1, 2}, oddAggExprs)
+
+		oddClauses := []c29Clause{{false, false, nil}}
+		for _, ls := range [][]string{{"A"}, {"Zone"}, {"_a"}, {"0x"}, {"~z"}, {"A", "a"}, {"Zone", "_a"}, {"a", "0x", "A"}} {
+			oddClauses = append(oddClauses, c29Clause{true, false, ls}, c29Clause{true, true, ls})
+		}
+		oddClauses = append(oddClauses, c29Clause{true, true, []string{c29Name, "A"}}, c29Clause{true, true, []string{"_a", c29Name}}, c29Clause{true, false, []string{c29Name, "Zone"}})
+		oddGroups := []c29Group{{0, nil, false}, {1, nil, false}, {1, []string{"A"}, false}, {1, []string{"_a"}, false}, {2, []string{"Zone"}, false}, {2, []string{"0x", "a"}, false}}
+		oddExprs := c29VVExprs(repForms, oddClauses, oddGroups, c29Fills(2))
+		lp, rp := c29OddPool("l"), c29OddPool("r")
+		os2 := c29Sets(len(lp), 0, 2, -1)
+		keep := func(l, r []int) bool { return len(l) <= 1 && len(r) <= 1 }
+		if thorough {
+			keep = func(l, r []int) bool {
+				if len(l) > 1 && len(r) > 1 {
+					return false
+				}
+				for _, i := range append(append([]int{}, l...), r...) {
+					if (len(l) > 1 || len(r) > 1) && i >= 8 {
+						return false
+					}
+				}
+				return true
+			}
+		}
+		pairTier("match-odd-names", repDesc+" x 20 matching clauses (on/ignoring over A, Zone, _a, \"0x\", \"~z\", mixed lists, with __name__) x 6 group modifiers with include lists over the same names x {none, fill(0)} on pairs of vectors over 11 series with those label names (quick: 0..1 series per side; thorough: additionally 2-series operands over the first 8 series against 0..1-series operands)",
+			lp, rp, "l", "r", c29Pairs(os2, os2, keep), 0, oddExprs, 32)
+	}
 	// B4: metric-name handling: operands that mix two metric names (duplicate label sets once the
 	// name is dropped), on(__name__) / ignoring(__name__).
 	{
 		np := c29If(thorough, 3, 4)
-		lp := append(append([]c29Series{}, lPool[:np]...), c29Series{"k", "", ""}, c29Series{"k", "1", ""}, c29Series{"k", "1", "1"})
-		rp := append(append([]c29Series{}, rPool[:np]...), c29Series{"q", "", ""}, c29Series{"q", "1", ""}, c29Series{"q", "1", "1"})
+		lp := append(append([]c29Series{}, lPool[:np]...), c29Series{"k", "", "", nil}, c29Series{"k", "1", "", nil}, c29Series{"k", "1", "1", nil})
+		rp := append(append([]c29Series{}, rPool[:np]...), c29Series{"q", "", "", nil}, c29Series{"q", "1", "", nil}, c29Series{"q", "1", "1", nil})
 		ls := c29Sets(len(lp), 0, 2, -1)
 		touch := func(s []int) bool {
 			for _, i := range s {
